@@ -22,7 +22,7 @@ ID = 'C20'
 LEVEL = 'exploration'
 RULE = (
     'cases: histories of 40-200 random steps over a pool of analysis objects (TrajectoryMetrics, Transitions, Jumps, '
-    'Collective) built from 5 different site systems: create / call a cached method with varying arguments '
+    'Collective) built from 5 different site systems (metrics objects also on related trajectories - full, diffusing species only, a slice, a split part - which share whatever the library shares between a trajectory and its derivations; their reference is a twin on a trajectory rebuilt from the raw arrays): create / call a cached method with varying arguments '
     '(dimensions 1-3, z_ion 1-3, n_parts, max_dist) / drop + liveness check / drop-and-recreate at the same address / '
     'explicit gc.collect; schedule dimension = gc disabled, gc threshold (1,1,1) or default; every tenth history '
     'creates more live objects than the cache size (128) to force evictions.  Oracle: uncached recomputation via '
@@ -101,6 +101,8 @@ def call_plan(kind, rng):
     """(method name, args, kwargs) for a random cached method of the given object kind."""
     if kind.startswith('jumps'):
         kind = 'jumps'
+    if kind.startswith('metrics'):
+        kind = 'metrics'
     if kind == 'metrics':
         opts = [
             ('speed', (), {}),
@@ -154,13 +156,31 @@ class Template:
 
         self.shared_tr = Transitions(trajectory=self.tr0.trajectory, diff_trajectory=self.tr0.diff_trajectory, sites=self.tr0.sites, events=self.tr0.events.copy(), states=self.tr0.states.copy(), inner_states=self.tr0.inner_states.copy())
 
+    def derive(self, traj, kind):
+        """Related trajectories (they share what the library shares between a trajectory and its derivations)."""
+        if kind == 'metrics':
+            return self.tr0.diff_trajectory if traj is self.traj else traj.filter(self.sys.floating)
+        if kind == 'metrics_full':
+            return traj
+        if kind == 'metrics_slice':
+            return traj[2 : len(traj) - 3]
+        if kind == 'metrics_part':
+            return traj.filter(self.sys.floating).split(2)[1]
+        raise KeyError(kind)
+
+    def pristine_metrics(self, kind):
+        """The same analysis object on a trajectory rebuilt from the raw arrays (nothing shared with the pool)."""
+        from gemdat.metrics import TrajectoryMetrics
+
+        return TrajectoryMetrics(self.derive(self.sys.trajectory(), kind))
+
     def make(self, kind):
         from gemdat.jumps import Jumps
         from gemdat.metrics import TrajectoryMetrics
         from gemdat.transitions import Transitions
 
-        if kind == 'metrics':
-            return TrajectoryMetrics(self.tr0.diff_trajectory)
+        if kind.startswith('metrics'):
+            return TrajectoryMetrics(self.derive(self.traj, kind))
         tr = Transitions(trajectory=self.tr0.trajectory, diff_trajectory=self.tr0.diff_trajectory, sites=self.tr0.sites, events=self.tr0.events.copy(), states=self.tr0.states.copy(), inner_states=self.tr0.inner_states.copy())
         if kind == 'transitions':
             return tr
@@ -259,7 +279,7 @@ def run_unit(unit, rng, ctx):
                 ent[3] = True
             v = invoke(obj, name, args, kwargs)
             w = invoke(obj, name, args, kwargs, wrapped=True)
-            twin = templates[k].make(kind)
+            twin = templates[k].pristine_metrics(kind) if kind.startswith('metrics') else templates[k].make(kind)
             r = invoke(twin, name, args, kwargs, wrapped=True)
             hist.append(f'call {kind}#{k}.{name}{args}{kwargs}')
             same_obj = equal(v, w)
@@ -314,7 +334,7 @@ def run_unit(unit, rng, ctx):
             for step in range(n_steps):
                 u = rng.uniform()
                 if not pool or u < 0.18:
-                    kind = str(rng.choice(['metrics', 'transitions', 'jumps', 'jumps_shared', 'jumps_alt']))
+                    kind = str(rng.choice(['metrics', 'metrics_full', 'metrics_slice', 'metrics_part', 'transitions', 'jumps', 'jumps_shared', 'jumps_alt']))
                     k = int(rng.integers(len(templates)))
                     pool.append([templates[k].make(kind), kind, k, False])
                     hist.append(f'create {kind}#{k}')
